@@ -14,12 +14,13 @@ from ..core import HarnessError, Violation
 
 ID = "C09"
 LEVEL = "exploration"
-RULE = ("exhaustive part: ~45 hand-picked corner patterns of the supported grammar (repeat counts up to 70000, lazy "
+RULE = ("exhaustive part: every explicit repeat count 0..130 as {k}, {0,k}, {k/2,k}? and {k,}, 15 negated classes whose ranges touch "
+        "the ends of the generator's alphabet (600 draws each), all through RegexGenerator and through fake(); ~45 hand-picked corner patterns of the supported grammar (repeat counts up to 70000, lazy "
         "bounds above max_repeat, ranges inside / across the surrogate block, ranges ending at '~' or beyond, classes "
         "mixing every item kind, empty alternatives) x 4 RNG scripts. Generated part: Hypothesis draws a pattern recipe "
         "from the supported grammar of C09 (literals incl. escapes and non-ASCII, ., \\d, \\w, classes with literals / "
         "ranges / \\d / \\w / negation with a non-empty printable complement, capturing / non-capturing / named groups, "
-        "alternation, greedy+lazy quantifiers * + ? {n} {n,} {n,m} incl. open-ended minimum above max_repeat, ^ first / $ "
+        "alternation, greedy+lazy quantifiers * + ? {n} {n,} {n,m} incl. explicit counts and open-ended minimum above max_repeat, ^ first / $ "
         "last; depth<=4, at most three open-ended quantifiers), or such a pattern with one listed unsupported construct "
         "embedded at a drawn position; max_repeat in {0,1,3,32}; every RNG outcome is a scripted selector (0.0 = lowest, "
         "1.0 = highest outcome of the draw) or, in seeded mode, the real stdlib RNG; a third of the cases go on to "
